@@ -54,6 +54,20 @@ def wire2Op : List String → String
     | _, _, _ => "BADLINE"
   | _ => "BADLINE"
 
+/-- `bigwire <kind> <MiB> <delay> | ok:received:expected:digest-equal`: a message far bigger than the socket buffers
+    arrives whole (the message is lines of 64 octets without a leading dot, so the wire form is message + CRLF `.` CRLF) -/
+def bigwireOp : List String → String
+  | [_kind, _mib, _delay, res] =>
+    if res == "PANIC" then propfail "panic" else
+    match res.splitOn ":" with
+    | [ok, n, e, d] =>
+      if ok != "1" then propfail "message-reported-as-failed-to-a-reading-peer"
+      else if n != e then propfail s!"peer-received-{n}-octets-instead-of-{e}"
+      else if d != "1" then propfail "octets-received-differ-from-the-message"
+      else "ok"
+    | _ => "BADLINE"
+  | l => if l.getLast? == some "PANIC" then propfail "panic" else "BADLINE"
+
 /-- `estep <state 0|1|2> <byte> <impl out> <impl state'>` — exhaustive transition table -/
 def estepOp : List String → String
   | [st, b, out, st'] =>
